@@ -318,6 +318,7 @@ class Scanner:
 
         if value := self.scan(RE_PEEK):
             self.emit(TokenKind.PEEK, value)
+            self.skip_trivia()
             if self.peek() == "[":
                 self.emit(TokenKind.LBRACKET, self.next())
             else:
@@ -333,6 +334,8 @@ class Scanner:
                 self.emit(TokenKind.RANGE_OP, value)
             else:
                 self.error("expected a range operator")
+
+            self.skip_trivia()
 
             if value := self.scan(RE_INTEGER):
                 self.emit(TokenKind.INTEGER, value)
